@@ -315,7 +315,7 @@ func (fc *fnCtx) instr(in ssa.Instruction) {
 		for a, v := range fc.cells {
 			cs[a] = v
 		}
-		fc.rets = append(fc.rets, retSite{cs, fc.g.w.srcAt(x.Pos(), "return"), fc.curR, vs, fc.curH.clone(), fc.curAC})
+		fc.rets = append(fc.rets, retSite{cs, fc.g.w.srcAt(x.Pos(), "return"), fc.curR, vs, fc.curH.clone(), fc.curAC, x.Block()})
 		if g.lite && fc.parent == nil {
 			// typestate: `order L: A before return nil`: a return with a nil error needs a preceding successful A
 			for _, o := range fc.topOrders() {
